@@ -9,8 +9,9 @@ Local Open Scope list_scope.
 
 Lemma fs_of_snap_of : forall s, fs_of_snap (snap_of s) = fs s.
 Proof.
-  intros s. unfold fs_of_snap, snap_of. cbn [sn_files]. rewrite map_map.
-  induction (fs s) as [|[k [c m]] f IH]; cbn; auto. now rewrite IH.
+  intros s. unfold fs_of_snap, snap_of. cbn [sn_files].
+  generalize (fs s). intros f. induction f as [|[k [c m]] f IH]; [reflexivity|].
+  cbn [map]. rewrite IH. reflexivity.
 Qed.
 
 Definition wf_task (t : task) : Prop := t_sources t <> [] /\ t_method t <> NoMethod.
@@ -33,6 +34,7 @@ Section C04.
   Hypothesis Hsafe : v_safe v = true.
   Hypothesis Hfp : v_fp_exact v = true.
   Hypothesis Hts : v_ts_exact v = true.
+  Hypothesis Hlist : v_listjson_dry v = true.
   Hypothesis Hinj : forall a b, Hx a = Hx b -> a = b.
 
   Notation step := (step matchb H Hx).
@@ -85,13 +87,12 @@ Section C04.
     assert (Hgoal : ok = true /\ Inv04 p s' g').
     { unfold c04_step in Ec. cbn [o_ev o_res snd] in Ec.
       destruct o as [pth c|pth|pth|pth q|pth tm|m tid oc];
-        try (file_op_case Es; inversion Ec; subst; split; auto;
-             eapply inv04_same_store; [apply same_store_fs | exact Hinv]).
+        try (file_op_case Es; inversion Ec; subst; split; auto; fail).
       unfold Model.step in Es. cbn [snd fst] in Es. unfold invoke in Es.
       destruct (nth_error p tid) as [t|] eqn:Hn.
       2:{ inversion Ec; subst. split; auto.
           destruct m; inversion Es; subst; auto.
-          rewrite list_json_quiet; auto. rewrite Hsafe. apply orb_true_r. }
+          rewrite list_json_quiet; auto. }
       destruct Hwf as [Hwt Hkeys]. destruct (Hwt _ _ Hn) as [Hsrc Hm].
       assert (Hrun : forall mm, (mm = Run \/ mm = Force \/ mm = Dry) -> m = mm ->
                 run_task matchb H Hx v t0 s mm tid t oc = (s', x) -> ok = true /\ Inv04 p s' g').
@@ -108,23 +109,23 @@ Section C04.
           apply Hinj in Ed. subst fp0. rewrite Hl, Hgen in Ec. inversion Ec; subst. auto.
         - subst mm. cbn in Ec. inversion Ec; subst. split; auto. eapply inv04_same_store; eauto.
         - assert (Hat : is_attempt mm x = true).
-          { destruct mm; try congruence; destruct Hr as [->|[->| ->]]; reflexivity. }
+          { destruct Hmm as [->|[->| ->]]; try congruence; destruct Hr as [->|[->| ->]]; reflexivity. }
           assert (Hsk : is_skipped x = false) by (destruct Hr as [->|[->| ->]]; reflexivity).
           rewrite Hat, Hsk in Ec. inversion Ec; subst. split; auto.
           eapply inv04_attempt; eauto. split; auto.
-        - assert (Hat : is_attempt mm ROk = true) by (destruct mm; try congruence; reflexivity).
+        - assert (Hat : is_attempt mm ROk = true) by (destruct Hmm as [->|[->| ->]]; try congruence; reflexivity).
           rewrite Hat in Ec. cbn in Ec. inversion Ec; subst. split; auto.
           eapply inv04_attempt; eauto; [split; auto|].
           destruct Hrec as [Hrec|[_ [_ Hrec]]]; auto. }
       destruct m.
-      - eapply Hrun; eauto.
-      - eapply Hrun; eauto.
-      - eapply Hrun; eauto.
+      - apply (Hrun Run); auto.
+      - apply (Hrun Force); auto.
+      - apply (Hrun Dry); auto.
       - (* Status *)
-        rewrite (uptodate_safe matchb H Hx v Hsafe Hfp Hts) in Es by auto. inversion Es; subst.
+        rewrite (uptodate_safe matchb H Hx v Hfp Hts) in Es by auto. inversion Es; subst.
         cbn in Ec. inversion Ec; subst. auto.
       - (* ListJson *)
-        rewrite list_json_quiet in Es by (rewrite Hsafe; apply orb_true_r). inversion Es; subst.
+        rewrite list_json_quiet in Es by auto. inversion Es; subst.
         cbn in Ec. inversion Ec; subst. auto.
       - inversion Es; subst. cbn in Ec. inversion Ec; subst. auto.
       - inversion Es; subst. cbn in Ec. inversion Ec; subst. auto. }
